@@ -698,4 +698,3 @@ func (c *c08Ctx) checkFrameValue(x c08FrameValue, cfgs []c08FrameCfg) []byte {
 	}
 	return enc
 }
-
